@@ -1500,6 +1500,8 @@ class Sym:
         return outs
 
     def p_uf(self, e, *ins):
+        """Uninterpreted function: tok = F(all input scalars); out[j][idx] = G_{j,idx}(tok).  Same inputs => same token =>
+        same outputs (congruence); nothing else is assumed about the function."""
         name = e.params["name"]
         self.uses.add("uninterpreted:" + name)
         flat_in = []
@@ -1510,18 +1512,28 @@ class Sym:
                     flat_in += [zint(x.k0), zint(x.k1)]
                 else:
                     flat_in.append(lift(x, k))
+        return self.uf_apply(name, flat_in, e.params["out_avals"])
+
+    def uf_apply(self, name, flat_in, out_avals, constrain=True):
+        import hashlib
+        sig = "".join("b" if z3.is_bool(x) else ("i" if z3.is_int(x) else "r") for x in flat_in)
+        F = self._func(f"{name}.tok.{hashlib.md5(sig.encode()).hexdigest()[:8]}", *[x.sort() for x in flat_in], z3.IntSort())
+        tok = F(*flat_in) if flat_in else z3.Int(f"{name}.tok0")
         outs = []
-        for j, av in enumerate(e.params["out_avals"]):
+        for j, av in enumerate(out_avals):
             k = kind(av.dtype)
             arr = np.empty(av.shape, dtype=object)
             for idx in np.ndindex(*av.shape):
                 tag = f"{name}.{j}." + "_".join(map(str, idx))
                 if k == "k":
-                    f = [self._func(tag + f".k{w}", *[x.sort() for x in flat_in], z3.IntSort())(*flat_in) for w in (0, 1)]
+                    f = [self._func(tag + f".k{w}", z3.IntSort(), z3.IntSort())(tok) for w in (0, 1)]
                     arr[idx] = Key(f[0], f[1])
+                    if constrain:
+                        for t in f:
+                            self.assumes += [t >= 0, t < 2**32]
                 else:
-                    arr[idx] = self._func(tag, *[x.sort() for x in flat_in], _SORT[k]())(*flat_in)
-                    if k == "i":
+                    arr[idx] = self._func(tag, z3.IntSort(), _SORT[k]())(tok)
+                    if k == "i" and constrain:
                         lo, hi = dtype_range(av.dtype)
                         self.assumes += [arr[idx] >= lo, arr[idx] <= hi]
             outs.append(arr)
